@@ -34,7 +34,7 @@ Verdict(run) ==
         \* ... and the follow-up operation C, issued after both had returned, sequentially
         \* from that state
         cOK == ~hasC \/ Out(run, "C")
-               \/ LET s == SeqApply(run.mid, run.ops.C) IN s.r = run.res.C /\ s.m = run.final
+               \/ LET s == SeqApply(run.mid, run.ops.C) IN run.res.C \in s.rs /\ s.m = run.final
         a == run.ops.A   b == run.ops.B
         types == run.pair          \* "put-put" | "del-put" | "del-del" (sorted, from the harness)
         same == IF a.n = b.n THEN "same" ELSE "diff"
